@@ -602,7 +602,9 @@ func init() {
 		CaseTimeout: 300 * time.Second,
 		Procs: func(tier string, shard int) int {
 			if tier == "thorough" {
-				return []int{1, 2, 4, 16}[shard%4]
+				// GOMAXPROCS=1 is left out: with read delay 0 the reader and the operation both busy-poll and
+				// only advance by preemption (about 10 ms per chunk), which makes a shard take over an hour
+				return []int{2, 4, 16, 3}[shard%4]
 			}
 			return []int{2, 4}[shard%2]
 		},
